@@ -13,6 +13,7 @@ import (
 	"verif/ref"
 
 	"github.com/goblimey/go-ntrip/rtcm/handler"
+	msm4 "github.com/goblimey/go-ntrip/rtcm/type_msm4/message"
 	sat4 "github.com/goblimey/go-ntrip/rtcm/type_msm4/satellite"
 	sig4 "github.com/goblimey/go-ntrip/rtcm/type_msm4/signal"
 	msm7 "github.com/goblimey/go-ntrip/rtcm/type_msm7/message"
@@ -197,7 +198,7 @@ var docFreqMHz = map[string]map[uint][]float64{
 // C08: ranges, phase ranges and rates against the standard's formulas.
 func C08(r *ev.Run) {
 	thorough := r.Tier == "thorough"
-	r.Rule = "signal cells built through the packages' constructors and through decoded messages; whole ms all 0..255 x fractional {0,1,511,512,1023}; whole in {0,1,127,254} x all fractional 0..1023; every value of the MSM4 fine range (2^15), rough rate (2^14) and fine rate (2^15) fields at 6 anchor points; MSM7 fine range (2^20), MSM4 fine phase (2^22) and MSM7 fine phase (2^24): every value in the thorough tier, odd strides 5, 15 and 61 in the quick tier; the full product of boundary sets {min(invalid), min+1, -1, 0, 1, max}; 4 constellations x 32 signal ids for the wavelength; MSM4/MSM7 pairs encoding the same quantity; oracle in exact rational arithmetic (math/big), tolerance 8 ulp. Non-trivial = cases with a valid rough range and defined wavelength; distinct = distinct field vectors"
+	r.Rule = "signal cells built through the packages' constructors and through decoded messages; whole ms all 0..255 x fractional {0,1,511,512,1023}; whole in {0,1,127,254} x all fractional 0..1023; every value of the MSM4 fine range (2^15), rough rate (2^14) and fine rate (2^15) fields at 6 anchor points; MSM7 fine range (2^20), MSM4 fine phase (2^22) and MSM7 fine phase (2^24): every value in the thorough tier, odd strides 5, 15 and 61 in the quick tier; the full product of boundary sets {min(invalid), min+1, -1, 0, 1, max}; 4 constellations x 32 signal ids for the wavelength; MSM4/MSM7 pairs encoding the same quantity; every value of the MSM7 fine rate, MSM7 rough rate and MSM4 fine range (MSM7 fine range, MSM4/MSM7 fine phase: strides 15/15/61 quick, every value thorough) through one-cell messages decoded by the message packages, the decoded cell's numbers equal to those of a constructed cell with the same fields; oracle in exact rational arithmetic (math/big), tolerance 8 ulp. Non-trivial = cases with a valid rough range and defined wavelength; distinct = distinct field vectors"
 	r.Assumptions = []string{"cases whose true value is negative or whose wavelength is undefined are only checked for absence of panics, as the statement excludes them", "the wavelength reported for a signal must be c/f for one of the documented band frequencies or zero, and for the 47 (constellation, signal id) pairs with a documented carrier it must be that carrier's (table written down independently; BeiDou ids 14-16 accept 1207.14 or 1176.45 MHz)"}
 	lamL1 := utils.SpeedOfLightMS / 1.57542e9
 	fail := func(k *cellCase, d string) {
@@ -449,6 +450,118 @@ func C08(r *ev.Run) {
 		if c.Wavelength > 0 {
 			run(k)
 		}
+	}
+	// (6b) every value of each fine field and of the rough rate through DECODED
+	// cells (the sweeps above build cells through the constructors): a one-cell
+	// message is encoded, decoded by the message package, and the numbers of the
+	// decoded cell must equal those of a cell constructed from the same fields,
+	// which the sweeps above hold to the exact formula
+	{
+		failD := func(k *cellCase, d string, frame []byte) {
+			r.Violate(ev.Violation{Fingerprint: "C08 " + firstWords(d, 1) + map[bool]string{true: " msm7", false: " msm4"}[k.MSM7], What: d,
+				Case: map[string]interface{}{"fields": k, "frame": ev.FullHex(frame)}})
+		}
+		type dsweep struct {
+			m7     bool
+			field  string
+			lo, hi int
+			step   int
+		}
+		st := func(quick int) int {
+			if thorough {
+				return 1
+			}
+			return quick
+		}
+		sweeps := []dsweep{
+			{true, "finerate", -(1 << 14), 1<<14 - 1, 1}, {true, "roughrate", -(1 << 13), 1<<13 - 1, 1},
+			{true, "finerange", -(1 << 19), 1<<19 - 1, st(15)}, {true, "finephase", -(1 << 23), 1<<23 - 1, st(61)},
+			{false, "finerange", -(1 << 14), 1<<14 - 1, 1}, {false, "finephase", -(1 << 21), 1<<21 - 1, st(15)},
+		}
+		type dchunk struct {
+			sw     dsweep
+			lo, hi int
+		}
+		var dchunks []dchunk
+		for _, sw := range sweeps {
+			span := 1 << 16 * sw.step
+			for lo := sw.lo; lo <= sw.hi; lo += span {
+				hi := lo + span - 1
+				if hi > sw.hi {
+					hi = sw.hi
+				}
+				dchunks = append(dchunks, dchunk{sw, lo, hi})
+			}
+		}
+		parallelFor(len(dchunks), func(i int) {
+			c := dchunks[i]
+			var n int64
+			for v := c.lo; v <= c.hi; v += c.sw.step {
+				k := cellCase{MSM7: c.sw.m7, Whole: 70, Frac: 100, FineRange: 5, FinePhase: -5, RoughRate: 7, FineRate: -7, SignalID: 2}
+				switch c.sw.field {
+				case "finerange":
+					k.FineRange = v
+				case "finephase":
+					k.FinePhase = v
+				case "roughrate":
+					k.RoughRate = v
+				case "finerate":
+					k.FineRate = v
+				}
+				t := 1074
+				if k.MSM7 {
+					t = 1077
+				}
+				h := &ref.MSMHeader{Type: t, Timestamp: 1000, SatMask: 1 << 63, SigMask: 1 << 30, CellMask: []bool{true}}
+				frame := ref.MSMFrame(h, []ref.MSMSat{{Whole: k.Whole, Frac: k.Frac, Rate: int64(k.RoughRate)}},
+					[]ref.MSMSig{{RangeDelta: int64(k.FineRange), PhaseDelta: int64(k.FinePhase), Lock: 1, CNR: 40, RateDelta: int64(k.FineRate)}}, 0)
+				var got, want [4]float64
+				var derr error
+				cl, site, pn := guard(func() {
+					if k.MSM7 {
+						m, err := msm7.GetMessage(frame, slog.LevelInfo)
+						if err != nil || len(m.Signals) != 1 || len(m.Signals[0]) != 1 {
+							derr = fmt.Errorf("no cell: %v", err)
+							return
+						}
+						d := m.Signals[0][0]
+						k.Wavelength = d.Wavelength
+						got = [4]float64{d.RangeInMetres(), d.PhaseRange(), d.PhaseRangeRate(), d.PhaseRangeRateDoppler()}
+						cs := sat7.New(1, k.Whole, k.Frac, 0, k.RoughRate, slog.LevelInfo)
+						cc := sig7.New(k.SignalID, cs, k.FineRange, k.FinePhase, 1, false, 40, k.FineRate, k.Wavelength, slog.LevelInfo)
+						want = [4]float64{cc.RangeInMetres(), cc.PhaseRange(), cc.PhaseRangeRate(), cc.PhaseRangeRateDoppler()}
+					} else {
+						m, err := msm4.GetMessage(frame, slog.LevelInfo)
+						if err != nil || len(m.Signals) != 1 || len(m.Signals[0]) != 1 {
+							derr = fmt.Errorf("no cell: %v", err)
+							return
+						}
+						d := m.Signals[0][0]
+						k.Wavelength = d.Wavelength
+						got = [4]float64{d.RangeInMetres(), d.PhaseRange()}
+						cs := sat4.New(1, k.Whole, k.Frac, slog.LevelInfo)
+						cc := sig4.New(k.SignalID, cs, k.FineRange, k.FinePhase, 1, false, 40, k.Wavelength, slog.LevelInfo)
+						want = [4]float64{cc.RangeInMetres(), cc.PhaseRange()}
+					}
+				})
+				n++
+				switch {
+				case pn:
+					failD(&k, "PANIC-decoding-a-one-cell-message "+cl+"@"+site, frame)
+				case derr != nil:
+					failD(&k, "decoded-cell-missing: "+derr.Error(), frame)
+				case got != want:
+					names := []string{"RANGE", "PHASE", "RATE", "DOPPLER"}
+					for q := range got {
+						if got[q] != want[q] {
+							failD(&k, fmt.Sprintf("decoded-cell-differs-from-constructed-cell: %s of the decoded cell %.17g, of a cell constructed from the same fields %.17g (field %s = %d)", names[q], got[q], want[q], c.sw.field, v), frame)
+							break
+						}
+					}
+				}
+			}
+			r.Count(n, 0, n, n)
+		})
 	}
 	// (7) through the handler (GetMessage + Analyse, what display uses): pairs of
 	// messages of the same type, length and CRC value whose fields differ - the
